@@ -464,15 +464,9 @@ def r8_combiners_keep_both(run, F):
         width = p.split(" as ")[0].count(",") + 1
         if width < 3:
             continue
-        tries = []
-        for x in walk(b["hir"]):
-            if x.get("k") == "Match" and "Try" in str(x.get("msrc")):
-                sc = hirq.unwrap_trivial(x["scrut"])
-                arg = hirq.unwrap_trivial(sc["a"][0]) if sc.get("a") else {}
-                if arg.get("k") == "MethodCall" and arg.get("name") == "resolve":
-                    tries.append(x)
-        run.ob("R8-COMBINERS-KEEP-BOTH", "%d-tuple|one resolve" % width, len(tries) == 1, F.where(b, tries[1]) if len(tries) > 1 else F.where(b),
-               "the %d-tuple resolves all its parts in one `.resolve()?` on nested pairs (found %d): the errors of all parts are reported together" % (width, len(tries)))
+        res = [x for x in walk(b["hir"]) if x.get("k") == "MethodCall" and x.get("name") == "resolve"]
+        run.ob("R8-COMBINERS-KEEP-BOTH", "%d-tuple|one resolve" % width, len(res) == 1, F.where(b, res[1]) if len(res) > 1 else F.where(b),
+               "the %d-tuple resolves all its parts in one `.resolve()` on nested pairs (found %d calls): the errors of all parts are reported together" % (width, len(res)))
     run.floor("R8-COMBINERS-KEEP-BOTH", 18, "obligations on the four places where two results are joined (combine, accumulate, Vec fold, pair)")
 
 
